@@ -216,6 +216,11 @@ def search(chk: common.Check, rng, n_events: int):
     # same physics): Kibble / third Mandelstam / indicator built by keywords in a random order
     bad = []
     objs = public_objects()
+    import random
+
+    main_rng = rng  # the calling-convention cases draw from a CHILD stream, so the older families keep their inputs
+    _probe = random.Random(); _probe.setstate(main_rng.getstate())
+    rng = random.Random(_probe.getrandbits(64) ^ 0xC20)
     kw_variants = []
     for k in range(4):
         row = {}
@@ -232,6 +237,7 @@ def search(chk: common.Check, rng, n_events: int):
     f_ind = sp.lambdify([s1, s2, m0, m1, m2, m3, ov], ps.is_within_phasespace(s1, s2, m0, m1, m2, m3, outside_value=ov).doit(), "numpy")
     f_kal = sp.lambdify([s1, s2, s3], ps.Kallen(s1, s2, s3).doit(), "numpy")
     bad += convention_oracle(chk, rng, 6 if n_events < 1000 else 40)
+    conv_rng, rng = rng, main_rng
     for i in range(n_events):
         masses = [rng.choice([0.0, rng.uniform(0.01, 2.0)]) for _ in range(3)]
         M0 = sum(masses) + rng.uniform(0.05, 4.0)
@@ -348,6 +354,13 @@ def search(chk: common.Check, rng, n_events: int):
         S2 = R(rng.randint(0, 200), 11)
         S3 = R(rng.randint(0, 200), 17)
         OV = rng.choice([R(-7), R(0), R(1, 3)])  # 0 is a legitimate (falsy) outside value
+        zero = conv_rng.randrange(8)  # exactly-zero invariants (thresholds of massless pairs) in 3 of 8 cases
+        if zero == 0:
+            S1 = R(0)
+        elif zero == 1:
+            S2 = R(0)
+        elif zero == 2:
+            S3 = R(0)
         subs = {s1: S1, s2: S2, s3: S3, m0: M0, m1: ms[0], m2: ms[1], m3: ms[2], ov: OV}
         pairs = [
             ("compute_third_mandelstam", ps.compute_third_mandelstam(S1, S2, M0, *ms), sym_third.subs(subs)),
@@ -392,11 +405,17 @@ MANIFEST = {
     "design_ref": "DESIGN.md §3 C20",
     "text": (
         "Proof. Kallen/Kibble/third-Mandelstam/indicator are re-translated from the working tree into Lean on every run "
-        "and 16 theorems are re-checked by the kernel: total symmetry and factorisation of the Kallen function (all reals), "
+        "— each through five calling conventions (positional; keywords in declaration, reversed and rotated order; positional prefix + "
+        "out-of-order keywords), plus the unevaluated Kibble/Kallen nodes built by keywords — and 36 theorems are re-checked by the kernel: "
+        "every keyword/mixed-convention definition equals the positional one (20, by rfl: the constructor glue must put `.args` in "
+        "field-declaration order because evaluate() unpacks `.args` by position); total symmetry and factorisation of the Kallen function (all reals), "
         "sigma3 identity for every triple of four-momenta, Kibble = -64 m0^4 |p2 x p3|^2 <= 0 and indicator = 1 for every "
         "rest-frame event, and in ANY frame Kibble = 64 (H23^2 - H22 H33) <= 0 (reversed Cauchy-Schwarz for a time-like total "
         "momentum, proved from components) with indicator = 1 for every three four-momenta with time-like sum; Kibble = 16 m0^2 sigma1 (sigma2 - sigma2min)(sigma2 - sigma2max) and hence indicator = 1 iff sigma2 "
-        "lies between the PDG limits for every point of the bounding box (sigma1 > 0). Unbounded in all real arguments."
+        "lies between the PDG limits for every point of the bounding box (sigma1 > 0). Unbounded in all real arguments. "
+        "Oracle: physical events (also evaluated through keyword-constructed objects with random keyword orders), PDG box, exact boundary events, "
+        "numbers vs symbols, and a calling-convention oracle (every split point, random permutations, outside_value omitted/positional/keyword; "
+        "same ==/hash/.args/attributes/srepr/latex/doit as the positional call, on symbols, rationals and compound arguments)."
     ),
     "level_note": (
         "Trusted: Lean kernel + Mathlib (axioms propext, Classical.choice, Quot.sound); the sympy->Lean translator "
